@@ -110,8 +110,8 @@ type EncEntry struct {
 
 // Well-known algorithm identifiers.
 const (
-	AlgIDPFObfuscation  = "http://www.idpf.org/2008/embedding"        // EPUB33 4.4 font obfuscation
-	AlgAdobeObfuscation = "http://ns.adobe.com/pdf/enc#RC"            // Adobe font mangling
+	AlgIDPFObfuscation  = "http://www.idpf.org/2008/embedding" // EPUB33 4.4 font obfuscation
+	AlgAdobeObfuscation = "http://ns.adobe.com/pdf/enc#RC"     // Adobe font mangling
 	AlgAES128CBC        = "http://www.w3.org/2001/04/xmlenc#aes128-cbc"
 	AlgAES256CBC        = "http://www.w3.org/2001/04/xmlenc#aes256-cbc"
 	AlgAES256GCM        = "http://www.w3.org/2009/xmlenc11#aes256-gcm"
@@ -133,6 +133,10 @@ type Options struct {
 	// ExtraRootfile adds a second <rootfile> (a PDF rendition, other media type)
 	// after the package rootfile (EPUB33 4.2.6.3.1 allows several rootfile elements).
 	ExtraRootfile bool `json:"extra_rootfile,omitempty"`
+	// ExtraRootfileFirst puts that other rootfile before the package rootfile:
+	// the default rendition is the first rootfile whose media type is
+	// application/oebps-package+xml, not the first rootfile.
+	ExtraRootfileFirst bool `json:"extra_rootfile_first,omitempty"`
 }
 
 // Book is the whole publication.
@@ -500,9 +504,14 @@ func (b Book) opfXML() []byte {
 func (b Book) containerXML() []byte {
 	var sb strings.Builder
 	sb.WriteString(`<?xml version="1.0" encoding="UTF-8"?>` + "\n")
-	fmt.Fprintf(&sb, `<container version="1.0" xmlns="%s"><rootfiles><rootfile full-path="%s" media-type="%s"/>`, nsContainer, esc(b.OPFPath), mtOPF)
-	if b.Opt.ExtraRootfile {
-		sb.WriteString(`<rootfile full-path="rendition/book.pdf" media-type="application/pdf"/>`)
+	fmt.Fprintf(&sb, `<container version="1.0" xmlns="%s"><rootfiles>`, nsContainer)
+	extra := `<rootfile full-path="rendition/book.pdf" media-type="application/pdf"/>`
+	if b.Opt.ExtraRootfile && b.Opt.ExtraRootfileFirst {
+		sb.WriteString(extra)
+	}
+	fmt.Fprintf(&sb, `<rootfile full-path="%s" media-type="%s"/>`, esc(b.OPFPath), mtOPF)
+	if b.Opt.ExtraRootfile && !b.Opt.ExtraRootfileFirst {
+		sb.WriteString(extra)
 	}
 	sb.WriteString(`</rootfiles></container>` + "\n")
 	return []byte(sb.String())
